@@ -117,6 +117,13 @@ Section Mat.
   Context {F : Type} (O : NumOps F).
   Definition np_mmap (f : F -> F) (A : list (list F)) : list (list F) := map (map f) A.
   Definition np_mmap2 (f : F -> F -> F) (A B : list (list F)) : list (list F) := map2 (map2 f) A B.
+  (* A < c as a boolean mask, and the masked assignment A[M] = v *)
+  Definition np_mcmp (p : F -> bool) (A : list (list F)) : list (list bool) := map (map p) A.
+  Definition np_mwhere (M : list (list bool)) (v : F) (A : list (list F)) : list (list F) :=
+    map2 (map2 (fun (b : bool) x => if b then v else x)) M A.
+  (* v.max() / v.min() of a non-empty vector (NumPy raises on an empty one; RDM rows never are) *)
+  Definition py_max (l : list F) : F := fold_right (nmax O) (hd (n0 O) l) l.
+  Definition py_min (l : list F) : F := fold_right (nmin O) (hd (n0 O) l) l.
   (* A @ B.T, np.dot(A, B.T), np.einsum('ik,jk', A, B) *)
   Definition np_matmulT (A B : list (list F)) : list (list F) := map (fun a => map (fun b => dot O a b) B) A.
   (* (n,1) op (1,m) broadcast: entry (i,j) = f col_i row_j *)
